@@ -135,4 +135,28 @@ func VH_C17_upload() {
 		rt.Cover("bad-upload")
 	}
 	rt.Observe("status", rec.status)
+
+	// Whatever the first request was (in particular an accepted, authenticated one), a
+	// later request without a user on the same handler, cache and process is refused and
+	// changes nothing: authentication is a fact about the request, never about the server.
+	var body2 bytes.Buffer
+	w2 := multipart.NewWriter(&body2)
+	fw2, err2 := w2.CreateFormFile("uploadfile", "g.bin")
+	rt.Assume(err2 == nil)
+	_, _ = fw2.Write(append(append([]byte{}, vhPNG...), 'x'))
+	_ = w2.Close()
+	req2 := (&http.Request{
+		Method: "POST",
+		Header: http.Header{"Content-Type": []string{w2.FormDataContentType()}},
+		Body:   io.NopCloser(bytes.NewReader(body2.Bytes())),
+	}).WithContext(context.Background())
+	req2.ContentLength = int64(body2.Len())
+	blobs = len(fx.Repo.Blobs)
+	fx.Repo.Log = nil
+	fx.Repo.FS.Log = nil
+	rec2 := &vhRecorder{hdr: http.Header{}}
+	h.ServeHTTP(rec2, req2)
+	rt.Observe("status2", rec2.status)
+	rt.Assert(rec2.status == http.StatusForbidden, "later-anonymous-upload-refused")
+	rt.Assert(len(fx.Repo.Log) == 0 && len(fx.Repo.FS.Log) == 0 && len(fx.Repo.Blobs) == blobs, "repository-unchanged-by-later-anonymous-upload")
 }
